@@ -261,8 +261,7 @@ def convert_inv(execution, inv_rec):
             if not (keep and keep[-1] == "susp"):
                 keep.append("fail" if bi in braise else "ok")
             scripts[bi] = keep
-    if inv.outcome in ("CRASHED", "HANG"):
-        raise Unsupported("crashed invocation")
+    # (a crashed or hung invocation contributes the prefix it produced: every prefix of a behaviour is checked like a full one)
     cfg = None
     out = []
     started = False
